@@ -155,6 +155,10 @@ theorem prox_l05_partial_stationary (x u : ℝ) (hx : 0 < x) (hu : 0 < u)
     (h : ¬ |x| < (3 : ℝ) / 2 * u ^ ((2 : ℝ) / 3)) :
     prox_05 x u - x + u / (2 * Real.sqrt (prox_05 x u)) = 0 := Proofs.prox_05_stationary x u hx hu h
 
+/-- block L0.5 (`L2_05`, `prox_block_2_05`): every coordinate shrunk, never enlarged or flipped, zero block included -/
+theorem prox_l2_05_partial_shrinks {n : Nat} (x : Fin n → ℝ) (u : ℝ) (hu : 0 ≤ u) (i : Fin n) :
+    |prox_block_2_05 x u i| ≤ |x i| ∧ 0 ≤ prox_block_2_05 x u i * x i := Proofs.prox_block_2_05_shrinks x u hu i
+
 /-- non-vacuity: `x = 3, u = 1` is above the threshold `3/2` -/
 example : ¬ |(3:ℝ)| < (3 : ℝ) / 2 * (1:ℝ) ^ ((2 : ℝ) / 3) := by norm_num
 
